@@ -218,6 +218,18 @@ def extract(facts, rep):
                 got[t_] = 'mirror(%s)' % t_
         elif c[0] == 'adt' and c[2] in TYPES and k is not None:
             got[k] = c[2]
+        elif sk(c).replace('&', '').replace('*', '') in ('arg1.ctype', 'clone(arg1).ctype'):
+            # left as it is on this path
+            seen_k = set()
+            for ev_ in p.branches():
+                s_ = sk(ev_.term).replace('&', '').replace('*', '')
+                if s_ in ('discr(arg1.ctype)', 'discr(clone(arg1).ctype)'):
+                    if isinstance(ev_.value, int):
+                        seen_k = {TYPES[ev_.value]}
+                    elif ev_.value == 'else':
+                        seen_k = {TYPES[i] for i in range(4) if i not in (ev_.args or ())}
+            for t_ in (seen_k or set(TYPES)):
+                got.setdefault(t_, t_)
         else:
             unknown_m = True
     T['crossing_mirror_map'] = got
